@@ -160,3 +160,103 @@ func TestVerifC11Park(t *testing.T) {
 }
 
 func runtimeStack(buf []byte) int { return runtime.Stack(buf, true) }
+
+// TestVerifC11Open: the victim has a GetMessages request open (the normal state of a connected client).  A
+// request on the victim's session id with a credential that is refused (routes x credentials) must leave that
+// connection alone: a message sent to the victim afterwards still arrives on the SAME connection.
+func TestVerifC11Open(t *testing.T) {
+	shard, _ := strconv.Atoi(os.Getenv("VERIF_SHARD"))
+	nshards, _ := strconv.Atoi(os.Getenv("VERIF_NSHARDS"))
+	if nshards == 0 {
+		nshards = 1
+	}
+	res := &vSeqResult{EndStates: map[string]int{}}
+	sigs := map[string]*vViol{}
+	base := t.TempDir()
+	routes := []string{"GET messages", "POST message", "DELETE"}
+	creds := []string{"missing", "wrong", "other-session", "one-char"}
+	type job struct{ route, cred string }
+	var jobs []job
+	for _, r := range routes {
+		for _, c := range creds {
+			jobs = append(jobs, job{r, c})
+		}
+	}
+	for ji, j := range jobs {
+		if ji%nshards != shard {
+			continue
+		}
+		dir := fmt.Sprintf("%s/o%d", base, ji)
+		n, err := vStartNode(dir, true)
+		if err != nil {
+			t.Fatal(err)
+		}
+		if r := n.setConfig(vCfgFast); r.Code != 200 {
+			t.Fatalf("config: %d %s", r.Code, r.Body)
+		}
+		O, _ := n.createSession()
+		n.post(O, "NICK o", 11)
+		n.post(O, "USER o 0 * :o", 12)
+		T, _ := n.createSession()
+		n.post(T, "NICK t", 21)
+		n.post(T, "USER t 0 * :t", 22)
+		seq := []string{"c11open", j.route, j.cred}
+		res.Sequences++
+		marker := fmt.Sprintf("still-connected-%d", ji)
+		type got struct {
+			msgs []robust.Message
+			err  error
+		}
+		ch := make(chan got, 1)
+		go func() {
+			ms, _, err := n.stream(T, T.Auth, "", func(lines []robust.Message) bool {
+				for _, m := range lines {
+					if strings.HasSuffix(m.Data, marker) {
+						return true
+					}
+				}
+				return false
+			})
+			ch <- got{ms, err}
+		}()
+		time.Sleep(50 * time.Millisecond) // the victim's request is parked at the end of its stream now
+		cred := map[string]string{"missing": "", "wrong": "definitely-not-the-secret", "other-session": O.Auth, "one-char": "a"}[j.cred]
+		bad := vSession{Id: T.Id, Auth: cred, Num: T.Num}
+		var code int
+		switch j.route {
+		case "GET messages":
+			code = vGetStatus(n, bad).Code
+		case "POST message":
+			code = n.post(bad, "PRIVMSG o :forged", 777).Code
+		case "DELETE":
+			code = n.deleteSession(bad, "forged").Code
+		}
+		res.Ops++
+		res.EndStates[fmt.Sprintf("%s with %s credential on a session with an open stream -> %d", j.route, j.cred, code)]++
+		if code == 200 {
+			res.report(sigs, "C11", "request with a refused credential is served ["+j.route+"]", fmt.Sprintf("%s with %s credential: 200", j.route, j.cred), seq)
+		}
+		time.Sleep(20 * time.Millisecond)
+		if r := n.post(O, "PRIVMSG t :"+marker, 13); r.Code != 200 {
+			t.Fatalf("marker: %d %s", r.Code, r.Body)
+		}
+		g := <-ch
+		found := false
+		for _, m := range g.msgs {
+			if strings.HasSuffix(m.Data, marker) {
+				found = true
+			}
+		}
+		if !found {
+			res.report(sigs, "C11", "a refused request ended the victim's open message stream ["+j.route+"]", fmt.Sprintf("%s on the victim's session with %s credential (answered %d): the victim's open GetMessages connection ended after %d messages and did not deliver the next message (%v)", j.route, j.cred, code, len(g.msgs), g.err), seq)
+		}
+		n.Stop()
+		os.RemoveAll(dir)
+	}
+	b, _ := json.Marshal(res)
+	if o := os.Getenv("VERIF_OUT"); o != "" {
+		os.WriteFile(o, b, 0644)
+	} else {
+		fmt.Println(string(b))
+	}
+}
